@@ -19,9 +19,23 @@ def build(ctx):
     sm.replace("yearly_cap_gains.keys().cloned().collect();", "hole_i32_keys(&yearly_cap_gains);", 'H')
     sm.replace("let gain_or_loss = yearly_cap_gains[&year];", "let gain_or_loss = *yearly_cap_gains.get(&year).unwrap();", 'R15')
     sm.replace("let tx = &latest_year_delta[&year].tx;", "let tx = &latest_year_delta.get(&year).unwrap().tx;", 'R15')
+    # make_summary_txs
+    sm.replace("let affil_last_summarizable_delta_idx =\n            affil_last_summarizable_delta_idxs[&af];",
+               "let affil_last_summarizable_delta_idx =\n            *affil_last_summarizable_delta_idxs.get(&af).unwrap();", 'R15')
+    sm.replace("for (i, tx) in summary_period_txs.iter_mut().enumerate() {\n        tx.read_index = i as u32;\n    }",
+               "let mut __j: usize = 0;\n    while __j < summary_period_txs.len() {\n        let i = __j;\n        let tx = &mut summary_period_txs[__j];\n        __j += 1;\n        tx.read_index = i as u32;\n    }", 'R21')
+    sm.replace("for tx in summary_period_txs.iter_mut() {\n        tx.read_index = 0;\n    }",
+               "let mut __j2: usize = 0;\n    while __j2 < summary_period_txs.len() {\n        let tx = &mut summary_period_txs[__j2];\n        __j2 += 1;\n        tx.read_index = 0;\n    }", 'R21')
+    sm.replace("summary_period_txs.extend(af_sum_txs.into_iter());", "hole_extend_txs(&mut summary_period_txs, af_sum_txs);", 'H')
+    sm.replace("warnings.extend(warns.into_iter());", "hole_extend_warnings(&mut warnings, warns);", 'H')
+    sm.replace("deltas[first_unsumarizable_delta_idx\n                ..=summary_range.latest_delta_in_summary_range_idx]\n                .iter()\n                .collect()",
+               "hole_collect_refs(&deltas[first_unsumarizable_delta_idx\n                ..=summary_range.latest_delta_in_summary_range_idx])", 'H')
+    sm.replace("deltas[..=summary_range.latest_delta_in_summary_range_idx]\n                .iter()\n                .collect()",
+               "hole_collect_refs(&deltas[..=summary_range.latest_delta_in_summary_range_idx])", 'H')
+    sm.replace("(summary_period_txs, warnings.into_iter().collect())", "(summary_period_txs, hole_set_to_vec(warnings))", 'H')
     sm.only(['type Warning', 'struct SummaryRanges', 'const GET_SUMMARY_RANGE_DELTA_INDICIES_WARN',
              'fn get_summary_range_delta_indicies', 'const SHARE_BALANCE_ZERO_WARNING', 'fn make_simple_summary_txs',
-             'fn make_annual_gains_summary_txs'],
+             'fn make_annual_gains_summary_txs', 'fn make_summary_txs'],
             why='make_summary_txs / annual-gains variant / aggregate use extend, iter_mut and HashSet chains not brought into the dialect')
     stubs = open(os.path.join(os.path.dirname(os.path.dirname(os.path.abspath(__file__))), 'shim', 'util_stubs.rs')).read()
     return (shim('base', 'std') + "verus! {\n"
